@@ -3,7 +3,8 @@
     frame on the chain of [e] that binds [x], [local_get st a x] the binding of [x] in frame [a]
     itself, [parent_of] the parent link; vectors are cells addressed by index in [vectors st]. *)
 From Coq Require Import ZArith List Bool.
-From RV Require Import Model.Common Model.Num Model.Value Model.Builtins Model.Eval Spec.EvalSpec Proofs.StoreProofs Proofs.RegionProofs.
+From RV Require Import Model.Common Model.Num Model.Datum Model.Macro Model.Value Model.Builtins Model.Eval Spec.EvalSpec Proofs.StoreProofs
+  Proofs.RegionProofs Proofs.DerivedProofs.
 Import ListNotations.
 
 (** set! changes the one binding lexical scoping designates - and nothing else *)
@@ -84,3 +85,23 @@ Proof. exact builtin_call_frames. Qed.
 Theorem C03_call_effects_stay_in_region : forall st p args r st' F V,
   app st p args r st' -> stok F V st -> vok F V p -> Forall (vok F V) args -> untouched F V st st'.
 Proof. exact outside_untouched_app. Qed.
+
+(** the binding forms of the bundled grammar (grammar.sld as it is in /repo, regenerated into Gen/GrammarSld.v on
+    every run) are procedure calls, so "each procedure call creates fresh bindings" covers them: [let] is the
+    application of a lambda expression to the initialisers - all bindings of one let in ONE new frame, the
+    initialisers evaluated outside it - and [let*] nests, ONE NEW FRAME PER BINDING: a closure made by an earlier
+    initialiser does not share the binding a later one introduces, whatever the names *)
+Theorem C03_let_is_one_call : forall x v y w b1 b2 la lb lc ld le lf l0 l1 l2 l3 l4,
+  expand k_let (args_of [(args_of [(binding x v la lb lc, l0); (binding y w ld le lf, l1)], l2); (b1, l3); (b2, l4)]) =
+  Ok (L [L [Y k_lambda; L [x; y]; b1; b2]; v; w]).
+Proof. exact let_2_2. Qed.
+
+Theorem C03_letstar_nests_2 : forall x v y w b la lb lc ld le lf l0 l1 l2 l3,
+  expand k_letstar (args_of [(args_of [(binding x v la lb lc, l0); (binding y w ld le lf, l1)], l2); (b, l3)]) =
+  Ok (L [Y k_let; L [L [x; v]]; L [Y k_letstar; L [L [y; w]]; b]]).
+Proof. exact letstar_2. Qed.
+
+Theorem C03_letstar_nests_3 : forall x v y w z u b la lb lc ld le lf lg lh li l0 l1 l2 l3 l4,
+  expand k_letstar (args_of [(args_of [(binding x v la lb lc, l0); (binding y w ld le lf, l1); (binding z u lg lh li, l2)], l3); (b, l4)]) =
+  Ok (L [Y k_let; L [L [x; v]]; L [Y k_letstar; L [L [y; w]; L [z; u]]; b]]).
+Proof. exact letstar_3. Qed.
